@@ -2,6 +2,12 @@
 DEFERRED = "rules for this property are not armed yet (build order: DESIGN.md Appendix D); not claimed until a self-tested rule exists"
 
 CLAIMS = {
+    "C15": {
+        "level": "proof",
+        "text": "Exhaustive path-sensitive interval analysis of all 10 integer encoders x 6 integer column types x 2 signednesses plus the generic Int/UInt arms: on every writing path the written width equals the wire width, the accepted interval (from the path's comparisons / TryFrom results, constants folded with wrapping semantics) is included in every intermediate type and in the client's read type (so the decoded number equals the source for all accepted values; a concrete counterexample is produced otherwise), whole fixed-width ranges are accepted whenever the column can hold them, usize/isize accept exactly range(T) ∩ range(column), and non-writing paths return Err or diverge. All obligations discharge on the repaired tree (two defects found and fixed: sign-extension of negatives into unsigned columns; always-refused usize/isize).",
+        "note": "Trusted base: exporter, the cast/From/TryFrom interval model for a 64-bit target, byteorder's LE two's-complement writes. The column's representable range is taken to be its wire range.",
+        "technique": "path-sensitive interval abstract interpretation over MIR (trace partitioning by column arm and signedness)",
+    },
     "C04": {
         "level": "other",
         "text": "Framing arithmetic from the constants and affine forms of the framer's MIR, for all message sizes: single transport write site writing the whole pending buffer, single flush site; header length field = len(to_write) - H with H = 4 = truncate length = initial length, byte 3 = sequence counter; split comparison constant K equals the copy bound K2 and K - H = 0xFFFFFF; emission skipped only when payload == 0 and the last-full flag is clear, every emitting path sets flag := payload == 0xFFFFFF; write() leaves len < K or ends the packet and returns the buffered count. Found and fixed: threshold counted the header (0xFFFFFB packets) and no empty terminator after an exact multiple.",
